@@ -81,55 +81,33 @@ impl<L: Language, N: Analysis<L>> EGraph<L, N> {
 
         let syn_slots = &self.syn_slots(id);
         let c = self.classes.get_mut(&id).unwrap();
-        let grp = &c.group;
-
-        let mut final_cap = cap.clone();
-
-        // d is a newly redundant slot.
-        for d in &c.slots - &cap {
-            // if d is redundant, then also the orbit of d is redundant.
-            final_cap = &final_cap - &grp.orbit(d);
-        }
-
-        c.slots = cap.clone();
+        let old_slots = c.slots.clone();
         let generators = c.group.generators();
-        let _ = c;
+        c.slots = cap.clone();
 
-        let restrict_proven = |proven_perm: ProvenPerm| {
-            if CHECKS {
-                proven_perm.check();
-            }
-
-            let perm = proven_perm
-                .elem
-                .into_iter()
-                .filter(|(x, _)| cap.contains(x))
-                .collect();
-
-            #[cfg(feature = "explanations")]
-            let prf = self.disassociate_proven_eq(proven_perm.proof);
-            let out = ProvenPerm {
-                elem: perm,
-                #[cfg(feature = "explanations")]
-                proof: prf,
-                #[cfg(feature = "explanations")]
-                reg: self.proof_registry.clone(),
-            };
-            if CHECKS {
-                out.check();
-            }
-            out
-        };
-
-        let generators = generators.into_iter().map(restrict_proven).collect();
+        // The old symmetries are permutations of `old_slots`, they can't be kept as they are.
+        // We reset the group and re-assert them as equations below.
         let identity = ProvenPerm::identity(id, &cap, syn_slots, self.proof_registry.clone());
         if CHECKS {
             identity.check();
         }
         let c = self.classes.get_mut(&id).unwrap();
-        c.group = Group::new(&identity, generators);
+        c.group = Group::identity(&identity);
 
         self.touched_class(from.id, PendingType::Full);
+
+        // Re-assert each old symmetry `id(old_slots) = id(perm(old_slots))`.
+        // If it only permutes remaining slots, it becomes a symmetry of the shrunken class again.
+        // If it maps a remaining slot onto a newly redundant one (the orbit of a redundant slot is redundant), the class shrinks further.
+        for proven_perm in generators {
+            if CHECKS {
+                proven_perm.check();
+            }
+            let l = AppliedId::new(id, SlotMap::identity(&old_slots));
+            let r = AppliedId::new(id, proven_perm.elem.clone());
+            let prf = ghost!(proven_perm.proof.clone());
+            self.union_internal(&l, &r, prf);
+        }
     }
 
     pub(crate) fn rebuild(&mut self) {
